@@ -405,7 +405,12 @@ func runC03(env *core.Env, ci any) {
 					conn.Close()
 					return
 				}
-				farSide(t, conn, conn, rest, []byte("HTTP/1.1 101 Switching Protocols\r\nConnection: Upgrade\r\nUpgrade: websocket\r\n\r\n"))
+				extra := ""
+				if c.ConnOpt == "keep-alive" || c.TLS12 {
+					// header fields an upgrade reply may carry just like any other response
+					extra = "Content-Type: text/event-stream\r\nX-Accel-Buffering: no\r\n"
+				}
+				farSide(t, conn, conn, rest, []byte("HTTP/1.1 101 Switching Protocols\r\nConnection: Upgrade\r\nUpgrade: websocket\r\n"+extra+"\r\n"))
 			})
 		}
 	case "http", "https":
